@@ -419,7 +419,7 @@ func (r *tplRun) eval(e ast.Expr, env *tplEnv) tVal {
 			r.regions = append(r.regions, r.regionSeq)
 			return tVal{k: tvCloser, slot: -1, i: len(r.vis), desc: "scopedepth", s: fmt.Sprint(r.regionSeq)}
 		}
-		return tVal{k: tvUnknown, desc: r.src(x)}
+		return tVal{k: tvUnknown, desc: r.describeCond(x, env)}
 	case *ast.BinaryExpr:
 		switch x.Op {
 		case token.ADD, token.SUB, token.MUL, token.QUO, token.REM:
@@ -579,6 +579,9 @@ func (r *tplRun) eval(e ast.Expr, env *tplEnv) tVal {
 			}
 		}
 		return tVal{k: tvUnknown, desc: r.describe(x, env)}
+	}
+	if u, ok := e.(*ast.UnaryExpr); ok && u.Op == token.NOT {
+		return tVal{k: tvUnknown, desc: r.describeCond(e, env)}
 	}
 	return tVal{k: tvUnknown, desc: r.src(e)}
 }
@@ -1000,6 +1003,14 @@ func (r *tplRun) describeCond(e ast.Expr, env *tplEnv) string {
 			walk(x.X)
 		case *ast.Ident, *ast.SelectorExpr, *ast.IndexExpr:
 			sb.WriteString(r.describe(x.(ast.Expr), env))
+		case *ast.CallExpr:
+			// a predicate method without arguments: the receiver is resolved, so that the same question about two
+			// different nodes is two decisions
+			if sel, ok := x.Fun.(*ast.SelectorExpr); ok && len(x.Args) == 0 {
+				sb.WriteString(r.describe(sel.X, env) + "." + sel.Sel.Name + "()")
+			} else {
+				sb.WriteString(r.src(n))
+			}
 		default:
 			sb.WriteString(r.src(n))
 		}
@@ -1054,11 +1065,19 @@ func (r *tplRun) operandToIns(op string, v ast.Expr, env *tplEnv, pos token.Pos)
 				r.unsupported("native argument count %s unknown", r.src(cl.Elts[1]))
 			}
 			in.NoReturn = nativeNeverReturns(r.c, r.info, cl.Elts[0])
+			in.Native = true
+			if nm := r.eval(cl.Elts[2], env); nm.k == tvStr {
+				in.Name = nm.s
+			}
 		} else if val.k == tvAST && val.astLit != nil && len(val.astLit.Elts) == 3 {
 			if n, ok := r.evalInt(val.astLit.Elts[1], val.env); ok {
 				in.ArgCnt = n
 			} else {
 				r.unsupported("native argument count unknown")
+			}
+			in.Native = true
+			if nm := r.eval(val.astLit.Elts[2], val.env); nm.k == tvStr {
+				in.Name = nm.s
 			}
 		} else if n, ok := r.lenOfParam("args", env); ok {
 			// `fn` of compileCallInternal: a function pc or a native triple whose count is len(args) at every call site (R-C01-calltriple)
@@ -1186,7 +1205,7 @@ func (r *tplRun) hole(name string, pop, push int, pos token.Pos, canBeEmpty bool
 	case 2:
 		// two slots so that instruction counting (len(c.codes)-pc) sees "more than one instruction"
 		a := mk(false)
-		b := tplItem{isHole: true, holePop: push, holePush: push, ins: bcIns{Op: "hole", Target: -1, Var: -1, Pos: pos, Hole: name + "…"}}
+		b := tplItem{isHole: true, loop: fmt.Sprint(r.loopIx), holePop: push, holePush: push, ins: bcIns{Op: "hole", Target: -1, Var: -1, Pos: pos, Hole: name + "…"}}
 		r.items = append(r.items, a, b)
 	}
 }
@@ -1779,7 +1798,7 @@ func (r *tplRun) execAssign(x *ast.AssignStmt, env *tplEnv) {
 				r.unsupported("store to c.codes[%d] outside the template", idx)
 			}
 			if cl, ok := r.codeLit(x.Rhs[0]); ok {
-				r.items[idx] = tplItem{ins: r.insOfLit(cl, env)}
+				r.items[idx] = tplItem{ins: r.insOfLit(cl, env), loop: fmt.Sprint(r.loopIx)}
 				return
 			}
 			if j, ok := r.codesIndex(x.Rhs[0], env); ok && j >= 0 && j < len(r.items) {
@@ -2081,6 +2100,7 @@ var tplCurrentPred func(short string, arg tVal) bool
 func tplExplore(c *Ctx, fd *ast.FuncDecl, bind func(r *tplRun, env *tplEnv), inline map[string]bool, limit int) []tplVariant {
 	var out []tplVariant
 	choice := []int{}
+	tplLastTruncated = true
 	for n := 0; n < limit; n++ {
 		r := &tplRun{c: c, info: c.Gojq.TypesInfo, choice: choice, memo: map[string]int{}, inline: inline, strFacts: map[string]string{}, inlinePred: tplCurrentPred}
 		env := newTplEnv(nil)
@@ -2122,12 +2142,16 @@ func tplExplore(c *Ctx, fd *ast.FuncDecl, bind func(r *tplRun, env *tplEnv), inl
 			i--
 		}
 		if i < 0 {
+			tplLastTruncated = false
 			break
 		}
 		choice = append(append([]int(nil), taken[:i]...), taken[i]+1)
 	}
 	return out
 }
+
+// tplLastTruncated: the most recent tplExplore stopped at its variant limit with decision vectors left unexplored.
+var tplLastTruncated bool
 
 func (r *tplRun) memoVal(i int) int {
 	return r.memo[r.keys[i]]
